@@ -9,6 +9,7 @@ registries are written idempotently; R14.6 no memoised function that reads exter
 from __future__ import annotations
 
 import ast
+import re
 
 from ..callgraph import CallGraph
 from ..cfg import CFG, own_parts
@@ -231,6 +232,7 @@ def r14_2(ctx: Ctx, cg: CallGraph) -> None:
             ctx.violation(kind, short, f"{st.how} {unparse(st.target)}" + (f".{st.attr}" if st.attr else ""), st.where,
                           f"{short}: `{st.text()}` modifies an object owned by the caller ({why}); a component shared "
                           "between documents or a second encode sees the modification")
+    _wrapper_aliasing(ctx, cg, ow)
     ctx.extra["store_sites_classified"] = total
     ctx.instance("R14.2", "src/rtflite", f"{total} store/mutator sites on the construction and encode call graphs classified "
                  f"({len(ow.reach)} functions); parameters fresh at every call site are treated as owned")
@@ -262,6 +264,125 @@ def r14_2(ctx: Ctx, cg: CallGraph) -> None:
             if (st.how == "item" or st.attr == "columns") and (t.endswith("df") or t.endswith(".df") or t in ("df", "processed_df", "original_df", "page_df")):
                 cls = cg.expr_class(fi, st.target)
                 ctx.violation("R14.3", fi.short, f"frame store {t}", st.where, f"{fi.short}: `{st.text()}` writes into a DataFrame in place")
+
+
+def _field_default_is_none(pm, cls: str, fld: str) -> bool | None:
+    d = pm.field_decl(cls, fld)
+    v = getattr(d, "value", None) if d is not None else None
+    if v is None:
+        return None
+    if isinstance(v, ast.Constant):
+        return v.value is None
+    if isinstance(v, ast.Call) and dotted(v.func).split(".")[-1] == "Field":
+        a0 = v.args[0] if v.args else next((k.value for k in v.keywords if k.arg == "default"), None)
+        if isinstance(a0, ast.Constant):
+            return a0.value is None
+    return None
+
+
+def _inplace_aliases(pm, cg: CallGraph, cls: str, mi) -> list[tuple[str, set[str], str]]:
+    """for a method of an internal (wrapper) class: (field G, conditions, text of the store) such that the method mutates in
+    place - item store or mutator call directly on `self.F` - an object that IS the object held in field G when the method
+    was entered, under the conditions (guard atoms over self.<field>).  `self.F = self.h()` before the store is followed
+    into h's returns: a return of `self.G` is an alias, a freshly built value is not."""
+    from ..astmatch import guard_atoms, guards, resolve
+    out = []
+    for st in stores_in(mi):
+        t = st.target
+        if not (isinstance(t, ast.Attribute) and isinstance(t.value, ast.Name) and t.value.id == "self"):
+            continue
+        if not (st.how == "item" or st.how.startswith("mutator:")):
+            continue
+        F = t.attr
+        conds = guard_atoms(guards(st.node, mi.node), mi.node)
+        line = getattr(st.node, "lineno", 0)
+        rebinds = [n for n in walk_no_nested(mi.node) if isinstance(n, ast.Assign) and getattr(n, "lineno", 0) < line and
+                   any(isinstance(x, ast.Attribute) and isinstance(x.value, ast.Name) and x.value.id == "self" and x.attr == F for x in n.targets)]
+        if not rebinds:
+            out.append((F, conds, st.text()))
+            continue
+        E = rebinds[-1].value
+        if isinstance(E, ast.Attribute) and isinstance(E.value, ast.Name) and E.value.id == "self":
+            out.append((E.attr, conds, st.text()))
+        elif isinstance(E, ast.Call) and isinstance(E.func, ast.Attribute) and isinstance(E.func.value, ast.Name) and E.func.value.id == "self":
+            h = pm.find_method(cls, E.func.attr)
+            if h is None:
+                continue
+            for r in walk_no_nested(h.node):
+                if isinstance(r, ast.Return) and r.value is not None:
+                    v = resolve(r.value, h.node)
+                    if isinstance(v, ast.Attribute) and isinstance(v.value, ast.Name) and v.value.id == "self":
+                        out.append((v.attr, conds | guard_atoms(guards(r, h.node), h.node), st.text()))
+    return out
+
+
+def _wrapper_aliasing(ctx: Ctx, cg: CallGraph, ow: Ownership) -> None:
+    """R14.2 through internal wrapper objects: `K(field=<borrowed expr>, ...).m(...)` where m mutates in place the very object
+    held in that field (under conditions on the constructor's other arguments that are decided from literals at the call
+    site) writes into the caller's object although K itself is internal.  Undecided conditions give no finding."""
+    from ..astmatch import resolve
+    pm = ctx.pm
+    summaries: dict[tuple[str, str], list] = {}
+    n = 0
+    for short in ow.reach:
+        fi = pm.funcs.get(short)
+        fr = ow.fresh.get(short)
+        if fi is None or fr is None:
+            continue
+        for call in walk_no_nested(fi.node):
+            if not (isinstance(call, ast.Call) and isinstance(call.func, ast.Attribute)):
+                continue
+            recv = call.func.value
+            ctor = recv if isinstance(recv, ast.Call) else (resolve(recv, fi.node) if isinstance(recv, ast.Name) else None)
+            if not isinstance(ctor, ast.Call):
+                continue
+            K = dotted(ctor.func).split(".")[-1]
+            if K not in pm.classes or K in USER_CLASSES or not pm.is_pydantic(K) or ctor.args:
+                continue
+            mi = pm.find_method(K, call.func.attr)
+            if mi is None:
+                continue
+            if (K, mi.name) not in summaries:
+                summaries[(K, mi.name)] = _inplace_aliases(pm, cg, K, mi)
+            kws = {k.arg: k.value for k in ctor.keywords if k.arg}
+            if any(k.arg is None for k in ctor.keywords):
+                continue
+            for G, conds, text in summaries[(K, mi.name)]:
+                bx = kws.get(G)
+                if bx is None:
+                    continue
+                n += 1
+                decided = True
+                for atom in conds:
+                    m_ = re.fullmatch(r"self\.(\w+) is (not )?None", atom)
+                    if not m_:
+                        decided = False
+                        break
+                    X, neg = m_.group(1), bool(m_.group(2))
+                    if X == G:
+                        continue          # when the held object is None nothing is written
+                    ex = kws.get(X)
+                    if ex is None:
+                        dn = _field_default_is_none(pm, K, X)
+                        is_none = dn if X not in kws else None
+                    elif isinstance(ex, ast.Constant):
+                        is_none = ex.value is None
+                    elif isinstance(ex, (ast.Tuple, ast.List, ast.Dict, ast.Set, ast.JoinedStr)):
+                        is_none = False
+                    else:
+                        is_none = None
+                    if is_none is None or is_none == neg:
+                        decided = False
+                        break
+                lvl = fr._expr_level(bx, fr.at.get(id(call)))
+                ctx.instance("R14.2", fi.where(call), f"{short}: {K}.{mi.name} mutates the object held in `{G}` in place (`{text}`) under {sorted(conds)}; "
+                                                      f"bound to `{unparse(bx)[:50]}` (freshness level {lvl}); conditions decided true: {decided}")
+                if decided and lvl < 1 and isinstance(bx, (ast.Attribute, ast.Subscript, ast.Name)):
+                    ctx.violation("R14.2", short, f"in-place {K}.{mi.name} on {unparse(bx)[:60]}", fi.where(call),
+                                  f"{short}: `{unparse(call)[:90]}` mutates `{unparse(bx)[:50]}` in place ({K}.{mi.name}: `{text}` on the object passed as `{G}`, "
+                                  f"which is not copied when {sorted(conds)}); that object belongs to the caller (a shallow copy shares its field containers), "
+                                  "so a component shared between documents or a second encode sees the modification")
+    ctx.extra["wrapper_mutation_sites"] = n
 
 
 def r14_4(ctx: Ctx, cg: CallGraph) -> None:
@@ -492,6 +613,7 @@ def check(ctx: Ctx) -> None:
         "frame operation. R14.4 no time/random/env/id/hash calls; set iteration order is normalised before it can reach "
         "output (a set whose iteration only feeds order-free consumers - sorted, set/frozenset, membership, sum/min/max/any/all - is harmless). R14.5 process-state writes are idempotent constant registrations. R14.6 no memoisation on the path.")
     ctx.assume("objects of internal classes (PageContext, BroadcastValue, TextContent, Cell, Row, services) are never supplied by the user")
+    ctx.assume("a field of an internal wrapper model (BroadcastValue ...) initialised with a list holds that very list (validators do not copy nested lists)")
     ctx.assume("deepcopy/model_copy(deep=True)/DataFrame.clone/select/slice return objects that share no mutable state with their source")
     ctx.undecided("equality of the output with a fresh interpreter's output for concrete histories (follows from the absence of effects only)")
     cc = ColourContext(ctx.pm, cg)
